@@ -393,6 +393,23 @@ Definition cases : list (cli_config * cli_outcome) := [
 	common.WriteFile(filepath.Join(outDir, "cases_c19_cli.index.txt"), strings.Join(idx, "\n")+"\n")
 	meta.CaseFiles = append(meta.CaseFiles, "cases_c19_cli.v")
 
+	// 2b. the sub-command itself is part of the configuration: an unknown one must not look like a clean run
+	for _, exe := range []string{"go-critic", "gocritic"} {
+		for _, args := range [][]string{{"chek", "./p1"}, {"Check", "./p1"}, {"-enable=captLocal", "./p1"}} {
+			out, code, err := common.Run(60*time.Second, base, common.GoEnv(), filepath.Join(bin, exe), args...)
+			runs++
+			if err != nil {
+				meta.Fail("C19/cli/hang:unknown-subcommand", err.Error(), args)
+				continue
+			}
+			if code == 0 {
+				meta.Fail("C19/cli/invalid-config-exit-0:unknown-subcommand", fmt.Sprintf("%s %v exits 0 although %q is not a sub-command; output: %s", exe, args, args[0], firstLines(out, 3)), map[string]interface{}{"exe": exe, "args": args})
+			} else if !strings.Contains(out, args[0]) && !strings.Contains(out, "command") {
+				meta.Fail("C19/cli/message-does-not-name-problem:unknown-subcommand", fmt.Sprintf("%s %v: %s", exe, args, firstLines(out, 3)), args)
+			}
+		}
+	}
+
 	// 3. broken target packages: must never crash the run
 	broken := map[string]map[string]string{
 		"syntax-error":                    {"a.go": "package b\n\nfunc F( {\n"},
